@@ -222,6 +222,21 @@ func (in *Interp) binop(op token.Token, t types.Type, x, y Value, instr ssa.Inst
 	case *Term:
 		yv := y.(*Term)
 		signed := isSigned(t)
+		if xv.w == WInt && (op == token.ADD || op == token.SUB || op == token.MUL) {
+			var r *Term
+			switch op {
+			case token.ADD:
+				r = tc.Add(xv, yv)
+			case token.SUB:
+				r = tc.Sub(xv, yv)
+			default:
+				r = tc.Mul(xv, yv)
+			}
+			if !r.IsConst() {
+				in.obligation(tc.And(tc.Le(tc.IntC(-1<<63), r, true), tc.Le(r, tc.IntC(1<<63-1), true)), "int64 overflow in Int-mode arithmetic at "+in.posStr(instr.Pos()))
+			}
+			return r
+		}
 		switch op {
 		case token.ADD:
 			return tc.Add(xv, yv)
